@@ -131,6 +131,8 @@ class InterpBase:
         self.opaque_funcs: set = set()
         self.default_factories: Dict[str, Any] = {}
         self.number_locals: bool = False
+        self.class_store: Dict[Tuple[str, str], Any] = {}  # class attributes set at class creation / written later
+        self.class_init_phase: bool = False
         self.shift_mode: bool = False
         self.track_sym_ranges: bool = False
         self.sym_rng: Dict[Any, Interval] = {}
@@ -263,6 +265,7 @@ class InterpBase:
             effects=state.effects,
             mro=mro or (exc,),
             state=state.copy() if self.try_depth else None,
+            via=tuple(norm_text(n, 70) for n in self.call_nodes if n is not None),
         )
         self.raises.append(ev)
         state.bottom = True
